@@ -202,7 +202,7 @@ func firstDiffClass(a, b string) (string, string) {
 		}
 		desc := fmt.Sprintf("line %d: %q vs %q", i+1, x, y)
 		switch {
-		case reKeyLine.MatchString(x) || strings.Contains(x, "value:"):
+		case reKeyLine.MatchString(x) || strings.Contains(x, "value:") || strings.HasPrefix(strings.TrimSpace(x), "key:"):
 			return "map option entries", desc
 		case reOptLine.MatchString(x) || reFldOpt.MatchString(x):
 			return "option order", desc
@@ -495,6 +495,72 @@ func runC14(cfg *vh.Config) error {
 		caseNo++
 	}
 
+	// ---- stream 1r: the fixed bundles compiled again and again on fresh PackageSets with the listing of the baseline.
+	// A choice left to Go's map iteration order (which import owns a shared short name, which cached value wins) shows
+	// only in a fraction of the compilations: small maps iterate in insertion order more often than not, so the 8
+	// configurations above can all agree by chance. Everything must be byte-identical to the baseline, every time.
+	{
+		nFixed := 1
+		if nB > 3 {
+			nFixed = 3
+		}
+		reps := cfg.Scale(40, 200)
+		type repOut struct {
+			Sig, Got string
+			N        int
+		}
+		routs := parallel(nFixed, "repeat", caseNo,
+			func(i int) any {
+				return map[string]any{"files": bundles[i].Content, "packages": bundles[i].Packages, "call": "repeated compilation on fresh sets"}
+			},
+			func(i int) repOut {
+				var o repOut
+				base := all[i].Runs[0]
+				note := func(sig, got string) {
+					if o.N == 0 {
+						o.Sig, o.Got = sig, got
+					}
+					o.N++
+				}
+				for k := 0; k < reps; k++ {
+					run := runConfig(bundles[i], cfg.Seed, 0)
+					for _, pkg := range bundles[i].Packages {
+						bf, bok := base.Pkgs[pkg]
+						rf, rok := run.Pkgs[pkg]
+						switch {
+						case bok != rok:
+							note("C14 compile outcome differs between repeated compilations of the same bundle", fmt.Sprintf("compilation %d of %d, package %s: baseline ok=%v (%s), now ok=%v (%s)", k+1, reps, pkg, bok, base.Errs[pkg], rok, run.Errs[pkg]))
+						case !bok:
+						case len(bf) != len(rf):
+							note("C14 number of output files differs between repeated compilations of the same bundle", fmt.Sprintf("compilation %d of %d, package %s: %d vs %d", k+1, reps, pkg, len(bf), len(rf)))
+						default:
+							for j := range bf {
+								switch {
+								case bf[j].Path != rf[j].Path:
+									note("C14 order of output files differs between repeated compilations of the same bundle", fmt.Sprintf("compilation %d of %d, package %s file %d: %s vs %s", k+1, reps, pkg, j, bf[j].Path, rf[j].Path))
+								case bf[j].Hash != rf[j].Hash:
+									_, d := firstDiffClass(bf[j].Text, rf[j].Text)
+									note("C14 descriptor bytes differ between repeated compilations of the same bundle", fmt.Sprintf("compilation %d of %d, %s: deterministic-marshal hash %s vs %s; printed text: %s", k+1, reps, bf[j].Path, bf[j].Hash, rf[j].Hash, d))
+								case bf[j].Text != rf[j].Text:
+									cls, d := firstDiffClass(bf[j].Text, rf[j].Text)
+									note("C14 printed text differs between repeated compilations of the same bundle: "+cls, fmt.Sprintf("compilation %d of %d, %s: %s", k+1, reps, bf[j].Path, d))
+								}
+							}
+						}
+					}
+				}
+				return o
+			})
+		for i, o := range routs {
+			res.Count("repeat_bundle")
+			if o.N > 0 {
+				in := map[string]any{"files": bundles[i].Content, "packages": bundles[i].Packages, "compared": fmt.Sprintf("baseline vs %d further compilations on fresh PackageSets (same listing)", reps)}
+				res.Fail(vh.Failure{Case: caseNo, Stream: "repeat", Sig: o.Sig, Clause: "byte-identical descriptors and printed text, independent of the run (Go map iteration order)", Input: in, Got: fmt.Sprintf("%s [%d differences in all]", o.Got, o.N)})
+			}
+		}
+		caseNo++
+	}
+
 	// ---- stream: printing one descriptor many times. protobuf ranges over extension fields and map
 	// entries in a random order per call, so repeated printing explores those orders directly.
 	// (a) a descriptor without source info whose message/service/method carry extensions that sit
@@ -503,14 +569,15 @@ func runC14(cfg *vh.Config) error {
 	{
 		reps := cfg.Scale(56, 160)
 		type printJob struct {
-			Name string
-			F    protoreflect.FileDescriptor
+			Name  string
+			F     protoreflect.FileDescriptor
+			Files map[string]string // sources of a fixed bundle, shown with a failure
 		}
 		var jobs []printJob
 		if fd, err := tieDescriptor(); err != nil {
 			res.Fail(vh.Failure{Case: caseNo, Stream: "print", Sig: "C14 tie descriptor cannot be built (harness)", Clause: "harness expectation", Input: "tieDescriptor", Got: err.Error()})
 		} else {
-			jobs = append(jobs, printJob{"hand-built descriptor tie/v1/tie.proto: message with (j5.ext.v1.psm), (buf.validate.message), (j5.list.v1.message), (j5.list.v1.list_request), (j5.ext.v1.message); service with (j5.ext.v1.service), (j5.messaging.v1.service), (google.api.default_host), (google.api.oauth_scopes); method with (google.api.http), (j5.ext.v1.method), (google.api.method_signature)", fd})
+			jobs = append(jobs, printJob{"hand-built descriptor tie/v1/tie.proto: message with (j5.ext.v1.psm), (buf.validate.message), (j5.list.v1.message), (j5.list.v1.list_request), (j5.ext.v1.message); service with (j5.ext.v1.service), (j5.messaging.v1.service), (google.api.default_host), (google.api.oauth_scopes); method with (google.api.http), (j5.ext.v1.method), (google.api.method_signature)", fd, nil})
 		}
 		psb := protoSourceBundle()
 		pr := runConfig(psb, cfg.Seed, 0)
@@ -519,13 +586,24 @@ func runC14(cfg *vh.Config) error {
 				res.Fail(vh.Failure{Case: caseNo, Stream: "print", Sig: "C14 proto-source bundle does not compile: " + errClass(et), Clause: "harness expectation", Input: psb.Content, Got: et})
 			}
 			for _, f := range pr.Raw[pkg] {
-				jobs = append(jobs, printJob{"bundle with a .proto source: " + f.Path(), f})
+				jobs = append(jobs, printJob{"bundle with a .proto source: " + f.Path(), f, psb.Content})
+			}
+		}
+		// options defined by a .proto of the bundle itself, holding maps of every key kind
+		cob := customOptionBundle()
+		cr := runConfig(cob, cfg.Seed, 0)
+		for _, pkg := range cob.Packages {
+			if et, bad := cr.Errs[pkg]; bad {
+				res.Fail(vh.Failure{Case: caseNo, Stream: "print", Sig: "C14 custom-option bundle does not compile or print: " + errClass(et), Clause: "harness expectation", Input: cob.Content, Got: et})
+			}
+			for _, f := range cr.Raw[pkg] {
+				jobs = append(jobs, printJob{"bundle with options defined in its own .proto (maps of every key kind): " + f.Path(), f, cob.Content})
 			}
 		}
 		for bi, b := range bundles {
 			for _, pkg := range b.Packages {
 				for _, f := range all[bi].Runs[0].Raw[pkg] {
-					jobs = append(jobs, printJob{fmt.Sprintf("bundle %d: %s", bi, f.Path()), f})
+					jobs = append(jobs, printJob{fmt.Sprintf("bundle %d: %s", bi, f.Path()), f, b.Content})
 				}
 			}
 		}
@@ -557,6 +635,9 @@ func runC14(cfg *vh.Config) error {
 		for i, o := range outs {
 			res.Count("print_job")
 			in := map[string]any{"descriptor": jobs[i].Name, "prints": reps}
+			if jobs[i].Files != nil {
+				in["files"] = jobs[i].Files
+			}
 			if o.Pan != "" {
 				res.Fail(vh.Failure{Case: caseNo, Stream: "print", Sig: "C14 printer fails: " + errClass(o.Pan), Clause: "printed text", Input: in, Got: o.Pan})
 			} else if o.Diff != "" {
